@@ -11,125 +11,133 @@ Section Frame.
 Variable pt : string.
 Variable R : mstate -> mstate -> Prop.
 Hypothesis R_refl : forall s, R s s.
-Hypothesis R_trans : forall a b c, R a b -> R b c -> R a c.
-Hypothesis R_store : forall s st, R s (with_store s pt st).
-Hypothesis R_links : forall d s a rs, R s (fst (links_update d s pt a rs)).
-Hypothesis R_persist : forall s c, R s (fst (fst (persist s c))).
+Hypothesis R_store : forall a s st, R a s -> R a (with_store s pt st).
+Hypothesis R_links : forall a d s x rs, R a s -> R a (fst (links_update d s pt x rs)).
+Variable P : acall -> Prop.
+Hypothesis R_persist : forall s c, P c -> R s (fst (fst (persist s c))).
 
 Ltac r_step :=
   cbn [fst];
   match goal with
   | |- R ?s ?s => apply R_refl
-  | |- R ?s (fst (links_update ?d ?s1 pt ?a ?rs)) => apply (R_trans s s1); [|apply R_links]
-  | |- R ?s (with_store ?s1 pt ?st) => apply (R_trans s s1); [|apply R_store]
+  | |- R ?s (fst (links_update ?d ?s1 pt ?a ?rs)) => apply R_links
+  | |- R ?s (with_store ?s1 pt ?st) => apply R_store
   end.
 
-Lemma add_wo_R d s r : R s (fst (add_wo d s pt r)).
+Lemma add_wo_R d s r : P (AAdd pt r) -> R s (fst (add_wo d s pt r)).
 Proof.
+  intros HP.
   unfold add_wo. destruct (has _ r); [r_step|].
-  pose proof (R_persist s (AAdd pt r)) as P. destruct (persist s (AAdd pt r)) as [[s1 ok] old]. cbn [fst] in P.
-  destruct ok; cbn [negb]; [|exact P]. destruct (a_is_g d).
+  pose proof (R_persist s (AAdd pt r) HP) as Pp. destruct (persist s (AAdd pt r)) as [[s1 ok] old]. cbn [fst] in Pp.
+  destruct ok; cbn [negb]; [|exact Pp]. destruct (a_is_g d).
   - destruct (links_update d _ pt true [r]) as [s3 lok] eqn:E. cbn [fst].
     replace s3 with (fst (links_update d (with_store s1 pt (add (a_prio d) (get_store s pt) r)) pt true [r])) by (rewrite E; reflexivity).
-    repeat r_step. exact P.
-  - cbn [fst]. r_step. exact P.
+    repeat r_step. exact Pp.
+  - cbn [fst]. r_step. exact Pp.
 Qed.
 
-Lemma add_many_wo_R d s rs arr : R s (fst (add_many_wo d s pt rs arr)).
+Lemma add_many_wo_R d s rs arr : P (AAddMany pt rs) -> R s (fst (add_many_wo d s pt rs arr)).
 Proof.
+  intros HP.
   unfold add_many_wo. destruct (negb arr && has_any _ rs); [r_step|].
-  pose proof (R_persist s (AAddMany pt rs)) as P. destruct (persist s (AAddMany pt rs)) as [[s1 ok] old]. cbn [fst] in P.
-  destruct ok; cbn [negb]; [|exact P]. destruct (a_is_g d).
+  pose proof (R_persist s (AAddMany pt rs) HP) as Pp. destruct (persist s (AAddMany pt rs)) as [[s1 ok] old]. cbn [fst] in Pp.
+  destruct ok; cbn [negb]; [|exact Pp]. destruct (a_is_g d).
   - destruct (links_update d _ pt true rs) as [s3 lok] eqn:E. cbn [fst].
     replace s3 with (fst (links_update d (with_store s1 pt (fst (add_many (a_prio d) (get_store s pt) rs))) pt true rs)) by (rewrite E; reflexivity).
-    repeat r_step. exact P.
-  - cbn [fst]. r_step. exact P.
+    repeat r_step. exact Pp.
+  - cbn [fst]. r_step. exact Pp.
 Qed.
 
-Lemma remove_wo_R d s r : R s (fst (remove_wo d s pt r)).
+Lemma remove_wo_R d s r : P (ARemove pt r) -> R s (fst (remove_wo d s pt r)).
 Proof.
+  intros HP.
   unfold remove_wo.
-  pose proof (R_persist s (ARemove pt r)) as P. destruct (persist s (ARemove pt r)) as [[s1 ok] old]. cbn [fst] in P.
-  destruct ok; cbn [negb]; [|exact P]. destruct (remove (get_store s1 pt) r) as [st' removed].
-  destruct removed; cbn [negb]; [|exact P]. destruct (a_is_g d).
+  pose proof (R_persist s (ARemove pt r) HP) as Pp. destruct (persist s (ARemove pt r)) as [[s1 ok] old]. cbn [fst] in Pp.
+  destruct ok; cbn [negb]; [|exact Pp]. destruct (remove (get_store s1 pt) r) as [st' removed].
+  destruct removed; cbn [negb]; [|exact Pp]. destruct (a_is_g d).
   - destruct (links_update d _ pt false [r]) as [s3 lok] eqn:E. cbn [fst].
     replace s3 with (fst (links_update d (with_store s1 pt st') pt false [r])) by (rewrite E; reflexivity).
-    repeat r_step. exact P.
-  - cbn [fst]. r_step. exact P.
+    repeat r_step. exact Pp.
+  - cbn [fst]. r_step. exact Pp.
 Qed.
 
-Lemma remove_many_wo_R d s rs : R s (fst (remove_many_wo d s pt rs)).
+Lemma remove_many_wo_R d s rs : P (ARemoveMany pt rs) -> R s (fst (remove_many_wo d s pt rs)).
 Proof.
+  intros HP.
   unfold remove_many_wo. destruct (negb (has_any _ rs)); [r_step|].
-  pose proof (R_persist s (ARemoveMany pt rs)) as P. destruct (persist s (ARemoveMany pt rs)) as [[s1 ok] old]. cbn [fst] in P.
-  destruct ok; cbn [negb]; [|exact P]. destruct (remove_many (get_store s pt) rs) as [st' aff].
-  destruct aff; [exact P|]. destruct (a_is_g d).
+  pose proof (R_persist s (ARemoveMany pt rs) HP) as Pp. destruct (persist s (ARemoveMany pt rs)) as [[s1 ok] old]. cbn [fst] in Pp.
+  destruct ok; cbn [negb]; [|exact Pp]. destruct (remove_many (get_store s pt) rs) as [st' aff].
+  destruct aff; [exact Pp|]. destruct (a_is_g d).
   - destruct (links_update d _ pt false rs) as [s3 lok] eqn:E. cbn [fst].
     replace s3 with (fst (links_update d (with_store s1 pt st') pt false rs)) by (rewrite E; reflexivity).
-    repeat r_step. exact P.
-  - cbn [fst]. r_step. exact P.
+    repeat r_step. exact Pp.
+  - cbn [fst]. r_step. exact Pp.
 Qed.
 
-Lemma update_wo_R d s o n : R s (fst (update_wo d s pt o n)).
+Lemma update_wo_R d s o n : P (AUpdate pt o n) -> R s (fst (update_wo d s pt o n)).
 Proof.
+  intros HP.
   unfold update_wo.
-  pose proof (R_persist s (AUpdate pt o n)) as P. destruct (persist s (AUpdate pt o n)) as [[s1 ok] old]. cbn [fst] in P.
-  destruct ok; cbn [negb]; [|exact P]. destruct (update (get_store s1 pt) o n) as [st' updated].
-  destruct updated; cbn [negb]; [|exact P]. destruct (a_is_g d).
+  pose proof (R_persist s (AUpdate pt o n) HP) as Pp. destruct (persist s (AUpdate pt o n)) as [[s1 ok] old]. cbn [fst] in Pp.
+  destruct ok; cbn [negb]; [|exact Pp]. destruct (update (get_store s1 pt) o n) as [st' updated].
+  destruct updated; cbn [negb]; [|exact Pp]. destruct (a_is_g d).
   - destruct (links_update d (with_store s1 pt st') pt false [o]) as [s3 lok1] eqn:E1.
     assert (T3 : R s s3).
-    { replace s3 with (fst (links_update d (with_store s1 pt st') pt false [o])) by (rewrite E1; reflexivity). repeat r_step. exact P. }
+    { replace s3 with (fst (links_update d (with_store s1 pt st') pt false [o])) by (rewrite E1; reflexivity). repeat r_step. exact Pp. }
     destruct lok1; cbn [negb fst]; [|exact T3].
     destruct (links_update d s3 pt true [n]) as [s4 lok2] eqn:E2. cbn [fst].
     replace s4 with (fst (links_update d s3 pt true [n])) by (rewrite E2; reflexivity). r_step. exact T3.
-  - cbn [fst]. r_step. exact P.
+  - cbn [fst]. r_step. exact Pp.
 Qed.
 
-Lemma update_many_wo_R d s os ns : R s (fst (update_many_wo d s pt os ns)).
+Lemma update_many_wo_R d s os ns : P (AUpdateMany pt os ns) -> R s (fst (update_many_wo d s pt os ns)).
 Proof.
+  intros HP.
   unfold update_many_wo. destruct (negb (Nat.eqb _ _)); [r_step|].
-  pose proof (R_persist s (AUpdateMany pt os ns)) as P. destruct (persist s (AUpdateMany pt os ns)) as [[s1 ok] old]. cbn [fst] in P.
-  destruct ok; cbn [negb]; [|exact P]. destruct (update_many (get_store s1 pt) os ns) as [st' updated].
-  destruct updated; cbn [negb fst]; [|r_step; exact P]. destruct (a_is_g d).
+  pose proof (R_persist s (AUpdateMany pt os ns) HP) as Pp. destruct (persist s (AUpdateMany pt os ns)) as [[s1 ok] old]. cbn [fst] in Pp.
+  destruct ok; cbn [negb]; [|exact Pp]. destruct (update_many (get_store s1 pt) os ns) as [st' updated].
+  destruct updated; cbn [negb fst]; [|r_step; exact Pp]. destruct (a_is_g d).
   - destruct (links_update d (with_store s1 pt st') pt false os) as [s3 lok1] eqn:E1.
     assert (T3 : R s s3).
-    { replace s3 with (fst (links_update d (with_store s1 pt st') pt false os)) by (rewrite E1; reflexivity). repeat r_step. exact P. }
+    { replace s3 with (fst (links_update d (with_store s1 pt st') pt false os)) by (rewrite E1; reflexivity). repeat r_step. exact Pp. }
     destruct lok1; cbn [negb fst]; [|exact T3].
     destruct (links_update d s3 pt true ns) as [s4 lok2] eqn:E2. cbn [fst].
     replace s4 with (fst (links_update d s3 pt true ns)) by (rewrite E2; reflexivity). r_step. exact T3.
-  - cbn [fst]. r_step. exact P.
+  - cbn [fst]. r_step. exact Pp.
 Qed.
 
-Lemma remove_filtered_wo_R d s fi fvs : R s (fst (remove_filtered_wo d s pt fi fvs)).
+Lemma remove_filtered_wo_R d s fi fvs : P (ARemoveFiltered pt fi fvs) -> R s (fst (remove_filtered_wo d s pt fi fvs)).
 Proof.
+  intros HP.
   unfold remove_filtered_wo. destruct fvs as [|fv t]; [r_step|].
-  pose proof (R_persist s (ARemoveFiltered pt fi (fv :: t))) as P.
-  destruct (persist s (ARemoveFiltered pt fi (fv :: t))) as [[s1 ok] old]. cbn [fst] in P.
-  destruct ok; cbn [negb]; [|exact P].
-  destruct (remove_filtered (get_store s1 pt) fi (fv :: t)) as [[[st' removed] eff]|]; [|exact P].
-  destruct removed; cbn [negb fst]; [|r_step; exact P]. destruct (a_is_g d).
+  pose proof (R_persist s (ARemoveFiltered pt fi (fv :: t)) HP) as Pp.
+  destruct (persist s (ARemoveFiltered pt fi (fv :: t))) as [[s1 ok] old]. cbn [fst] in Pp.
+  destruct ok; cbn [negb]; [|exact Pp].
+  destruct (remove_filtered (get_store s1 pt) fi (fv :: t)) as [[[st' removed] eff]|]; [|exact Pp].
+  destruct removed; cbn [negb fst]; [|r_step; exact Pp]. destruct (a_is_g d).
   - destruct (links_update d _ pt false eff) as [s3 lok] eqn:E. cbn [fst].
     replace s3 with (fst (links_update d (with_store s1 pt st') pt false eff)) by (rewrite E; reflexivity).
-    repeat r_step. exact P.
-  - cbn [fst]. r_step. exact P.
+    repeat r_step. exact Pp.
+  - cbn [fst]. r_step. exact Pp.
 Qed.
 
-Lemma update_filtered_wo_R d s ns fi fvs : R s (fst (fst (update_filtered_wo d s pt ns fi fvs))).
+Lemma update_filtered_wo_R d s ns fi fvs : P (AUpdateFiltered pt ns fi fvs) -> R s (fst (fst (update_filtered_wo d s pt ns fi fvs))).
 Proof.
+  intros HP.
   unfold update_filtered_wo.
-  pose proof (R_persist s (AUpdateFiltered pt ns fi fvs)) as P.
-  destruct (persist s (AUpdateFiltered pt ns fi fvs)) as [[s1 ok] old]. cbn [fst] in P.
-  destruct ok; cbn [negb fst]; [|exact P].
+  pose proof (R_persist s (AUpdateFiltered pt ns fi fvs) HP) as Pp.
+  destruct (persist s (AUpdateFiltered pt ns fi fvs)) as [[s1 ok] old]. cbn [fst] in Pp.
+  destruct ok; cbn [negb fst]; [|exact Pp].
   destruct (remove_many (get_store s1 pt) old) as [st1 aff].
   set (st2 := fst (add_many (a_prio d) st1 ns)).
-  destruct (negb _); cbn [fst]; [r_step; exact P|]. destruct (a_is_g d).
+  destruct (negb _); cbn [fst]; [r_step; exact Pp|]. destruct (a_is_g d).
   - destruct (links_update d (with_store s1 pt st2) pt false old) as [s3 lok1] eqn:E1.
     assert (T3 : R s s3).
-    { replace s3 with (fst (links_update d (with_store s1 pt st2) pt false old)) by (rewrite E1; reflexivity). repeat r_step. exact P. }
+    { replace s3 with (fst (links_update d (with_store s1 pt st2) pt false old)) by (rewrite E1; reflexivity). repeat r_step. exact Pp. }
     destruct lok1; cbn [negb fst]; [|exact T3].
     destruct (links_update d s3 pt true ns) as [s4 lok2] eqn:E2. cbn [fst].
     replace s4 with (fst (links_update d s3 pt true ns)) by (rewrite E2; reflexivity). r_step. exact T3.
-  - cbn [fst]. r_step. exact P.
+  - cbn [fst]. r_step. exact Pp.
 Qed.
 End Frame.
 
@@ -140,12 +148,13 @@ Definition same_ctl (s s' : mstate) : Prop :=
 Lemma same_ctl_refl s : same_ctl s s. Proof. repeat split. Qed.
 Lemma same_ctl_trans a b c : same_ctl a b -> same_ctl b c -> same_ctl a c.
 Proof. intros (A1 & A2 & A3 & A4) (B1 & B2 & B3 & B4). repeat split; congruence. Qed.
-Lemma same_ctl_store pt s st : same_ctl s (with_store s pt st). Proof. repeat split. Qed.
-Lemma same_ctl_links pt d s a rs : same_ctl s (fst (links_update d s pt a rs)).
-Proof. unfold links_update. destruct (build_incremental _ _ _ _) as [l ok]. repeat split. Qed.
-Lemma same_ctl_persist s c : same_ctl s (fst (fst (persist s c))).
+Lemma same_ctl_store pt a s st : same_ctl a s -> same_ctl a (with_store s pt st).
+Proof. intros H. eapply same_ctl_trans; [exact H|]. repeat split. Qed.
+Lemma same_ctl_links pt a d s x rs : same_ctl a s -> same_ctl a (fst (links_update d s pt x rs)).
+Proof. intros H. eapply same_ctl_trans; [exact H|]. unfold links_update. destruct (build_incremental _ _ _ _) as [l ok]. repeat split. Qed.
+Lemma same_ctl_persist s c : True -> same_ctl s (fst (fst (persist s c))).
 Proof.
-  unfold persist. destruct (autosave s) eqn:E; [|cbn [fst]; apply same_ctl_refl].
+  intros _. unfold persist. destruct (autosave s) eqn:E; [|cbn [fst]; apply same_ctl_refl].
   destruct (adapter_call (ad s) c) as [[a ok] old]. cbn [fst]. repeat split.
 Qed.
 
@@ -155,8 +164,24 @@ Definition ad_untouched (s s' : mstate) : Prop := autosave s = false -> ad s' = 
 Lemma ad_untouched_refl s : ad_untouched s s. Proof. intros H. auto. Qed.
 Lemma ad_untouched_trans a b c : ad_untouched a b -> ad_untouched b c -> ad_untouched a c.
 Proof. intros H1 H2 H. destruct (H1 H) as [A1 A2]. destruct (H2 A2) as [B1 B2]. split; congruence. Qed.
-Lemma ad_untouched_store pt s st : ad_untouched s (with_store s pt st). Proof. intros H. auto. Qed.
-Lemma ad_untouched_links pt d s a rs : ad_untouched s (fst (links_update d s pt a rs)).
-Proof. unfold links_update. destruct (build_incremental _ _ _ _) as [l ok]. intros H. auto. Qed.
-Lemma ad_untouched_persist s c : ad_untouched s (fst (fst (persist s c))).
-Proof. intros H. unfold persist. rewrite H. cbn [fst]. auto. Qed.
+Lemma ad_untouched_store pt a s st : ad_untouched a s -> ad_untouched a (with_store s pt st).
+Proof. intros H. eapply ad_untouched_trans; [exact H|]. intros K. auto. Qed.
+Lemma ad_untouched_links pt a d s x rs : ad_untouched a s -> ad_untouched a (fst (links_update d s pt x rs)).
+Proof. intros H. eapply ad_untouched_trans; [exact H|]. unfold links_update. destruct (build_incremental _ _ _ _) as [l ok]. intros K. auto. Qed.
+Lemma ad_untouched_persist s c : True -> ad_untouched s (fst (fst (persist s c))).
+Proof. intros _ H. unfold persist. rewrite H. cbn [fst]. auto. Qed.
+
+(* ---------- instance: which adapter state results (the single call an operation makes) ---------- *)
+Definition ad_by (call : acall) (s s' : mstate) : Prop :=
+  ad s' = ad s \/ (autosave s = true /\ ad s' = fst (fst (adapter_call (ad s) call))).
+
+Lemma ad_by_refl call s : ad_by call s s. Proof. left. reflexivity. Qed.
+Lemma ad_by_store call pt a s st : ad_by call a s -> ad_by call a (with_store s pt st).
+Proof. intros H. exact H. Qed.
+Lemma ad_by_links call pt a d s x rs : ad_by call a s -> ad_by call a (fst (links_update d s pt x rs)).
+Proof. unfold links_update. destruct (build_incremental _ _ _ _) as [l ok]. intros H. exact H. Qed.
+Lemma ad_by_persist call s c : c = call -> ad_by call s (fst (fst (persist s c))).
+Proof.
+  intros ->. unfold ad_by, persist. destruct (autosave s) eqn:E; [|left; reflexivity].
+  destruct (adapter_call (ad s) call) as [[a ok] old]. right. split; reflexivity.
+Qed.
